@@ -1,9 +1,11 @@
 (* C08 - the overlap measure chi2 equals its reference definition for all restraint sets.
-   Statements only; proofs are in Proofs/Chi2R.v, Proofs/Chi2Rigid.v, Proofs/Chi2Relabel.v.  T := R.
+   Statements only; proofs are in Proofs/Chi2R.v, Chi2Rigid.v, Chi2Relabel.v, Chi2RelabelFixed.v.  T := R.
    chi2_eval fixed mobile0 restr mobile  models  Chi2Calculator(fixed, mobile0, restr)(mobile);
    chi2_spec is the sentence of the property (Model/Chi2.v).  Restraint indices are naturals
    (numpy's wrap-around of negative indices is outside the model). *)
-From GM Require Import Proofs.RTac Model.Chi2 Proofs.Chi2Lists Proofs.Chi2R Proofs.Chi2Rigid Proofs.Chi2Relabel.
+From GM Require Import Proofs.RTac Model.Chi2 Proofs.Chi2Lists Proofs.Chi2R Proofs.Chi2Rigid Proofs.Chi2Relabel
+  Proofs.Chi2RelabelFixed.
+From Coq Require Import Permutation.
 Import ListNotations.
 Local Open Scope R_scope.
 
@@ -39,7 +41,7 @@ Print Assumptions C08_nonneg.
 
 (* a common isometry p -> Q p + t (Q orthogonal, reflections included) of the fixed molecule, of the
    construction-time and of the evaluation configuration changes nothing: same value, same error *)
-Theorem C08_rigid_invariant : forall (Q : M3 R) (t : V3 R) (fixed mobile0 mobile : list (V3 R)) restr,
+Theorem C08_rigid_invariant : forall (Q : M3 R) (t : V3 R) (fixed mobile0 : list (V3 R)) restr (mobile : list (V3 R)),
   orthogonal Q ->
   chi2_eval (map (rigid Q t) fixed) (map (rigid Q t) mobile0) restr (map (rigid Q t) mobile)
   = chi2_eval fixed mobile0 restr mobile.
@@ -58,7 +60,18 @@ Theorem C08_relabel : forall (fixed mobile0 mobile mobile0' mobile' : list (V3 R
 Proof. exact chi2_relabel. Qed.
 Print Assumptions C08_relabel.
 
-(* ... and the hypothesis is needed: with two equidistant mobile atoms the first-arg-min rule makes
+(* Consistent relabelling of the fixed atoms (new label t i for atom i), restraints relabelled and
+   listed in any order: the value is unchanged, ties or not. *)
+Theorem C08_relabel_fixed : forall (fixed fixed' mobile0 mobile : list (V3 R)) restr restr' (t : nat -> nat),
+  relabelling t fixed fixed' ->
+  Permutation restr' (map (fun ij => (t (fst ij), snd ij)) restr) ->
+  mobile <> [] -> length mobile = length mobile0 ->
+  (forall i j, In (i, j) restr -> (i < length fixed)%nat /\ (j < length mobile)%nat) ->
+  chi2_eval fixed' mobile0 restr' mobile = chi2_eval fixed mobile0 restr mobile.
+Proof. exact chi2_relabel_fixed. Qed.
+Print Assumptions C08_relabel_fixed.
+
+(* ... and the hypothesis of C08_relabel is needed: with two equidistant mobile atoms the first-arg-min rule makes
    k depend on the labels (the real code returns 2.2 and 2.0 on these two inputs) *)
 Example C08_relabel_needs_unique :
   let fixed := [mk3 0 0 0; mk3 2 0 0] in
@@ -71,14 +84,15 @@ Example C08_relabel_needs_unique :
 Proof. exact relabel_counterexample. Qed.
 
 (* non-vacuity: a concrete input with a partial, duplicated restraint list, evaluated on a
-   configuration different from the construction one, meets every hypothesis above *)
+   configuration different from the construction one, meets every hypothesis above (two restrained
+   pairs 10 + 1, two unrestrained fixed atoms 2 + 2, one mobile atom left alone: k = 1) *)
 Example C08_nonvacuous :
   let fixed := [mk3 0 0 0; mk3 1 0 0; mk3 2 0 0] in
-  let mobile0 := [mk3 9 9 9; mk3 8 8 8] in
-  let mobile := [mk3 0 0 1; mk3 2 0 1] in
+  let mobile0 := [mk3 9 9 9; mk3 8 8 8; mk3 7 7 7] in
+  let mobile := [mk3 0 0 1; mk3 3 0 1; mk3 9 9 9] in
   let restr := [(0, 1); (0, 0)]%nat in
   mobile <> mobile0 /\ mobile <> [] /\ length mobile = length mobile0 /\
   (forall i j, In (i, j) restr -> (i < length fixed)%nat /\ (j < length mobile)%nat) /\
   unique_nearest fixed mobile restr /\
-  chi2_eval fixed mobile0 restr mobile = Ok (5 + 1 + 2 + 1).
+  chi2_eval fixed mobile0 restr mobile = Ok ((10 + 1 + 2 + 2) * (11 / 10)).
 Proof. exact chi2_nonvacuous. Qed.
